@@ -3,8 +3,8 @@ import PoxModel.Model.PacketHdr
 # Data path of `SoftwareSwitchBase` (C12): actions, output expansion, port rules, counters.  Core only.
 
 Mirrors `pox/datapaths/switch.py` **after the proposed repairs** D7 (`_action_enqueue` reads `action.port`),
-D8 (`output:TABLE` goes to `_lookup_packet`, the table-lookup half of `rx_packet`, instead of re-entering `rx_packet`)
-and C12-1 (`set_vlan_vid` / `set_vlan_pcp` reduce their argument to the 12 / 3 bits of the tag field).  The behaviour of
+D8 (`output:TABLE` goes to `_lookup_packet`, the table-lookup half of `rx_packet`, instead of re-entering `rx_packet`),
+C12-2 (`strip_vlan` leaves a tag that did not parse alone) and C12-1 (`set_vlan_vid` / `set_vlan_pcp` reduce their argument to the 12 / 3 bits of the tag field).  The behaviour of
 the unrepaired lines is kept as `Variant` switches (used only by the `…_defect` witnesses and by the harness when it
 replays a defect): see `Variant` below.
 
@@ -94,6 +94,7 @@ structure Variant where
   d7 : Bool := false      -- `_action_enqueue` reads `action.tp_port`
   d8 : Bool := false      -- `output:TABLE` calls `rx_packet` (receive checks and counters again)
   c121 : Bool := false    -- VLAN actions store the argument unreduced
+  c122 : Bool := false    -- `strip_vlan` also "strips" a `vlan` object that did not parse (`set_payload(None)` raises)
   deriving DecidableEq, Repr
 
 /-- a parsed `ethernet` object: its attributes and its `next` -/
@@ -130,12 +131,14 @@ def setVlanField (g : Vlan → Vlan) (f : Frame) : M Frame := do
   let f' ← if isVlanObj f.pay then pure f else pushVlan f
   pure (updVlan g f')
 
-/-- switch.py:877-881: `packet.type = packet.payload.eth_type; packet.payload = packet.payload.payload` -/
-def stripVlan (f : Frame) : M Frame :=
+/-- `_action_strip_vlan`: `if isinstance(packet.payload, vlan) and packet.payload.payload is not None:
+packet.type = packet.payload.eth_type; packet.payload = packet.payload.payload` (repair C12-2: a tag too short to have been
+parsed — a `vlan` object with `next = None` — is left alone; without the repair `set_payload(None)` raises `TypeError`) -/
+def stripVlan (var : Variant) (f : Frame) : M Frame :=
   match f.pay with
-  | .vlan _ .nil => .error .typeError
+  | .vlan _ .nil => if var.c122 then .error .typeError else .ok f
   | .vlan v n => .ok { eth := { f.eth with type := v.ethType }, pay := n }
-  | .unparsed c r => if c == "vlan" then .error .typeError else .ok { f with pay := .unparsed c r }
+  | .unparsed c _ => if c == "vlan" && var.c122 then .error .typeError else .ok f
   | _ => .ok f
 
 /-- `nw = packet.payload; if isinstance(nw, vlan): nw = nw.payload; if isinstance(nw, ipv4): …` -/
@@ -158,7 +161,7 @@ def handle1 (var : Variant) (a : Action) (f : Frame) : M Frame :=
   match a with
   | .setVlanVid vid => setVlanField (fun v => { v with id := vidOf var vid }) f
   | .setVlanPcp pcp => setVlanField (fun v => { v with pcp := pcpOf var pcp }) f
-  | .stripVlan => stripVlan f
+  | .stripVlan => stripVlan var f
   | .setDlSrc a => .ok { f with eth := { f.eth with src := a } }
   | .setDlDst a => .ok { f with eth := { f.eth with dst := a } }
   | .setNwSrc a => .ok { f with pay := updIp (fun h n => .ipv4 { h with src := a } n) f.pay }
